@@ -49,7 +49,14 @@ def gen(rng):
 def plan(ctx):
     rng, tier = ctx["rng"], ctx["tier"]
     n = 24 if tier == "quick" else 600
-    return [("corpus", corpus(ID)), ("gen", [("lim%d" % i, gen(rng)) for i in range(n)])]
+    return [("corpus", corpus(ID)), ("gen", [("lim%d" % i, gen(rng)) for i in range(n)]),
+            ("client", [("client", ["client new proxy=%s" % (p.encode().hex() or "-") for p in PROXY_SETTINGS])])]
+
+
+# every kind of proxy setting the worker may be given (collector.parseProxy): none, http(s), tunnelling schemes, and the
+# libcurl-style settings without a scheme
+PROXY_SETTINGS = ["", "http://proxy.example:8080", "https://proxy.example", "http://user:pw@proxy.example:3128", "socks5://proxy.example:1080",
+                  "socks5://user:pw@127.0.0.1:1080", "proxy.example:8080", "user:pw@proxy.example:8080", "127.0.0.1:3128", "socks5h://proxy.example:1080"]
 
 
 def run(ctx, bname, seqs):
@@ -64,7 +71,7 @@ def run(ctx, bname, seqs):
 
 
 def nontrivial(r):
-    return any(il and "sem=0" in il for il in r.impl)
+    return any(il and ("sem=0" in il or "limited=" in il) for il in r.impl)
 
 
 def tags(r):
